@@ -35,7 +35,7 @@ ID = "C07"
 LEAN_TARGETS = ["RV.C07.Props", "RV.C07.Audit"]
 AUDIT = "RV/C07/Audit.lean"
 DRIVER = "drv_c07"
-CASES = {"quick": 1500, "thorough": 60000, "search": 20000}
+CASES = {"quick": 1500, "thorough": 30000, "search": 20000}
 RULE = ("3-7 terms per case drawn from every kind (URIRef, Genid, RDFLibGenid, BNode, Variable, Literal over every "
         "datatype of XSDToPython with valid / invalid / non-normalised lexical forms, language tags differing in case, "
         "NaN/INF, naive and aware date-times, arbitrary Unicode incl. quotes, backslashes, CR/LF/TAB, controls, non-BMP), "
